@@ -293,7 +293,11 @@ fn poll_fut(f: &mut SendFut) -> bool {
 
 struct RaceWorld {
     node: crate::world::Node,
+    /// the members' link channels, in the order in which this world's member map is iterated
     rx: Vec<futures::channel::mpsc::Receiver<String>>,
+    /// member names in that order (the fan-out walks a hash map, whose order differs from one map
+    /// instance to the next: positions, not names, are what a configuration fixes)
+    order: Vec<String>,
 }
 
 /// a primary with `members` secondaries (their link channels are the harness's), the real
@@ -335,7 +339,14 @@ fn race_world(members: usize) -> (RaceWorld, SendFut, futures::channel::mpsc::Se
     admin.exec(&node, "set k v1");
     let (queued, _) = node.drain_queues();
     let msg = queued.last().cloned().unwrap_or_default();
-    (RaceWorld { node, rx }, fut, feed, msg)
+    let order: Vec<String> = {
+        let st = node.dbs.cluster_state.lock().unwrap();
+        let m = st.members.lock().unwrap();
+        m.iter().map(|(n, _)| n.clone()).filter(|n| n.starts_with('m')).collect()
+    };
+    let mut by_name: std::collections::BTreeMap<String, futures::channel::mpsc::Receiver<String>> = rx.into_iter().enumerate().map(|(i, r)| (format!("m{}:1", i + 1), r)).collect();
+    let rx = order.iter().map(|n| by_name.remove(n).unwrap()).collect();
+    (RaceWorld { node, rx, order }, fut, feed, msg)
 }
 
 fn ack_races_fan_out(run: &mut Run, quick: bool) {
@@ -370,7 +381,7 @@ fn ack_races_fan_out(run: &mut Run, quick: bool) {
                 std::process::exit(2);
             }
         };
-        let shape = format!("{} secondaries, the fan-out of one write racing the acknowledgement(s) of {:?}", members, ackers.iter().map(|a| format!("m{}", a + 1)).collect::<Vec<_>>());
+        let shape = format!("{} secondaries, the fan-out of one write racing the acknowledgement(s) of the secondaries served {:?} (0 = first)", members, ackers);
         let mut found: Vec<Violation> = vec![];
         let mut mk = || {
             let (w, fut, feed, msg) = race_world(*members);
@@ -388,7 +399,7 @@ fn ack_races_fan_out(run: &mut Run, quick: bool) {
             }));
             for a in ackers.iter() {
                 let dbs = w.node.dbs.clone();
-                let line = format!("ack {} m{}:1", id, a + 1);
+                let line = format!("ack {} {}", id, w.order[*a]);
                 bodies.push(Box::new(move |_s| {
                     let (mut c, _r) = nundb::bo::Client::new_empty_and_receiver();
                     c.auth.store(true, std::sync::atomic::Ordering::SeqCst);
@@ -443,7 +454,7 @@ fn ack_races_fan_out(run: &mut Run, quick: bool) {
                 match &pend {
                     None => push(
                         "operation-not-pending-while-a-copy-is-unacknowledged",
-                        format!("op {} was sent to {:?}, members {:?} never acknowledged it, yet it is no longer pending (table size {}); schedule {:?}", real_id, sent, silent.iter().map(|m| format!("m{}", m + 1)).collect::<Vec<_>>(), table, schedule),
+                        format!("op {} was sent to {:?} (fan-out order {:?}), members {:?} never acknowledged it, yet it is no longer pending (table size {}); schedule {:?}", real_id, sent, w.order, silent.iter().map(|m| w.order[*m].clone()).collect::<Vec<_>>(), table, schedule),
                     ),
                     Some(p) => {
                         if p.is_full_acknowledged() {
@@ -459,7 +470,7 @@ fn ack_races_fan_out(run: &mut Run, quick: bool) {
             let mut link = Session::new();
             link.exec(&w.node, &format!("auth {} {}", USER, PWD));
             for m in 0..*members {
-                link.exec(&w.node, &format!("ack {} m{}:1", real_id, m + 1));
+                link.exec(&w.node, &format!("ack {} {}", real_id, w.order[m]));
             }
             let left = w.node.dbs.pending_opps.read().unwrap().len();
             if left != 0 {
